@@ -18,7 +18,7 @@ RULE = sqlmon.RULE_HISTORIES + ' Hostile client only: late / never / out-of-orde
 ASSUMPTIONS = sqlmon.COMMON_ASSUMPTIONS
 SHARDS = {'quick': 4, 'thorough': 16}
 TIMEOUT = {'quick': 900, 'thorough': 3600}
-FLOORS = {'scripted_scheduling_passes_over_an_open_update_with_its_own_group': 40, 'uncommitted_job_states_checked': 3000, 'parent_completions_with_uncommitted_children': 5, 'never_committed_updates_with_jobs': 20}
+FLOORS = {'scripted_canceller_sweeps_over_a_cancelled_batch_whose_first_update_is_open': 20, 'scripted_scheduling_passes_over_an_open_update_with_its_own_group': 40, 'uncommitted_job_states_checked': 3000, 'parent_completions_with_uncommitted_children': 5, 'never_committed_updates_with_jobs': 20}
 
 MECH = {
     'job_complete': 'parent-completion-updates-uncommitted-child',
@@ -38,6 +38,8 @@ class Uncommitted(Monitor):
 
     def reset(self):
         self.seen_taint = set()
+        self.prev_group_state = {}
+        self.op_start_group_state = {}
 
     def on_commit(self, v):
         ctx = self.r.ctx
@@ -69,7 +71,7 @@ class Uncommitted(Monitor):
                 ctx.count('taints_attributed_by_committing_statement')
             if j is not None and opname in ('job_complete', 'unschedule', 'deactivate_instance') and (j['attempt_id'] is not None or 'state' in cause and j['state'] in ('Running', 'Creating')):
                 mech = 'scheduler-runs-uncommitted-job'
-            if mech == 'scheduler-runs-uncommitted-job' and j is not None and j['attempt_id'] is None and (
+            if mech in ('scheduler-runs-uncommitted-job', 'canceller-completes-uncommitted-job') and j is not None and j['attempt_id'] is None and j['state'] != 'Cancelled' and (
                     cause.startswith('n_pending_parents') or cause == 'cancelled flag set' or (cause.startswith('state ') and j['state'] in ('Ready', 'Pending'))):
                 # not this job being run: a PARENT the pass placed started and finished at once (its completion report overtakes the
                 # driver's own schedule_job call), and its completion counted down / readied / cancelled the uncommitted child
@@ -86,7 +88,19 @@ class Uncommitted(Monitor):
                     # may be 'complete' again by the time a late start report arrives: what counts is its state when the job was
                     # handed to the worker (the fake worker's hand-over log)
                     mech = 'scheduler-runs-job-in-group-of-uncommitted-update'
+            if mech == 'canceller-completes-uncommitted-job' and j is not None:
+                grp = v.groups.get((k[0], j['job_group_id']))
+                # the group's state when the sweep STARTED (it lists its jobs first and then completes them one commit at a time,
+                # which may itself complete the group): the state at the end of the previous operation, else at the previous commit
+                gk = (k[0], j['job_group_id'])
+                was = self.op_start_group_state.get(gk, self.prev_group_state.get(gk, grp['state'] if grp else None))
+                if grp is not None and was != 'running':
+                    # the recorded finding is about the canceller's sweep over RUNNING groups (its queries have no committed check);
+                    # the unchanged sweep does not visit a group that is not running (e.g. the groups of a batch whose first
+                    # update is still open), whether it is cancelled or not
+                    mech = 'canceller-sweeps-group-that-is-not-running'
             self.r.violation(f'uncommitted-job-changed/{mech}', f'job {k} of an uncommitted update changed ({cause}) during {opname}', {'job': list(k), 'cause': cause, 'op': opname})
+        self.prev_group_state = {g: row['state'] for g, row in v.groups.items()}
         has_uncommitted_jobs = {}
         for k, j in v.jobs.items():
             if not v.committed(j):
@@ -105,13 +119,75 @@ class Uncommitted(Monitor):
                     scopes = [('batch', b)]
                 self.r.violation(sqlmon.explain(self.p, f'uncommitted-effect-{name}/unexplained', scopes), 'while an uncommitted update with jobs exists: ' + what, wit)
 
+    def on_op(self, rec, v):
+        self.op_start_group_state = {g: row['state'] for g, row in v.groups.items()}
+
     def at_end(self, v):
         for (b, u), upd in v.updates.items():
             if not upd['committed'] and any(j['update_id'] == u and j['batch_id'] == b for j in v.jobs.values()):
                 self.r.ctx.count('never_committed_updates_with_jobs')
 
 
+async def scripted_cancelled_open_batch(runner, w, fz, rng):
+    """directed prefix: batch B1's first update is OPEN with Ready jobs (root group and, half the time, an own sub-group) and B1 is
+    cancelled before any commit; the same user has another, committed batch B2 with Ready jobs that is cancelled as well (so the
+    canceller has work for this user); the canceller's sweeps run.  B1's jobs must stay exactly as inserted."""
+    from batch.front_end.validate import validate_and_clean_jobs, validate_job_groups
+    from vf.world.world import userdata
+
+    ctx = runner.ctx
+    user = 'alice'
+    ud = userdata(user)
+    fe = w.fe
+
+    def spec(i, **kw):
+        d = {'job_id': i, 'process': {'type': 'docker', 'command': ['true'], 'image': 'u'}, 'resources': {'cpu': '1', 'memory': 'standard', 'storage': '1Gi'}}
+        d.update(kw)
+        return d
+    sub = rng.random() < 0.5
+    b1 = await fe._create_batch({'billing_project': 'bp-a', 'token': 'c41c1', 'n_jobs': 2, 'n_job_groups': 1 if sub else 0}, ud, w.db)
+    fz.batches[b1] = {'user': user, 'token': 'c41c1', 'groups': {0, 1} if sub else {0}, 'cancelled': set(), 'deleted': False}
+    u1, _, _ = await fe._create_batch_update(b1, 'c41c1', 2, 1 if sub else 0, user, w.db)
+    if sub:
+        gs = [{'job_group_id': 1, 'absolute_parent_id': 0}]
+        validate_job_groups(gs)
+        await fe._create_job_groups(w.db, b1, u1, user, gs)
+    js = [spec(1), spec(2, **({'in_update_job_group_id': 1} if sub else {}))]
+    validate_and_clean_jobs(js)
+    await fe._create_jobs(ud, js, b1, u1, w.fe_app)
+    b2 = await fe._create_batch({'billing_project': 'bp-a', 'token': 'c41c2', 'n_jobs': 2, 'n_job_groups': 0}, ud, w.db)
+    fz.batches[b2] = {'user': user, 'token': 'c41c2', 'groups': {0}, 'cancelled': set(), 'deleted': False}
+    u2, _, _ = await fe._create_batch_update(b2, 'c41c2', 2, 0, user, w.db)
+    js = [spec(1), spec(2)]
+    validate_and_clean_jobs(js)
+    await fe._create_jobs(ud, js, b2, u2, w.fe_app)
+    await fe._commit_update(w.fe_app, b2, u2, user, w.db)
+    for b in ((b1, b2) if rng.random() < 0.5 else (b2, b1)):
+        await fe._cancel_job_group(w.fe_app, b, 0)
+        fz.batches[b]['cancelled'].add(0)
+    fz.current = 'cancel_ready'
+    await w.canceller.cancel_cancelled_ready_jobs_loop_body()
+    await fz._drain()
+    fz.current = 'cancel_creating'
+    await w.canceller.cancel_cancelled_creating_jobs_loop_body()
+    await fz._drain()
+    fz.current = 'cancel_running'
+    await w.canceller.cancel_cancelled_running_jobs_loop_body()
+    await fz._drain()
+    from vf.world.oracles import View
+    v = View(w.engine)
+    ctx.count('scripted_canceller_sweeps_over_a_cancelled_batch_whose_first_update_is_open')
+    ctx.seen('scripted_states_of_the_open_updates_jobs_after_the_sweeps', ','.join(sorted({v.jobs[(b1, i)]['state'] for i in (1, 2)})))
+    ctx.seen('scripted_states_of_the_committed_cancelled_batchs_jobs_after_the_sweeps', ','.join(sorted({v.jobs[(b2, i)]['state'] for i in (1, 2)})))
+
+
 async def scripted(runner, w, fz, rng):
+    if runner.ctx.case_index[1] % 3 == 2:
+        return await scripted_cancelled_open_batch(runner, w, fz, rng)
+    return await scripted_open_update_own_group(runner, w, fz, rng)
+
+
+async def scripted_open_update_own_group(runner, w, fz, rng):
     """directed prefix: update 1 (left OPEN) brings its own job group with a Ready job in it (and, half the time, another job in the
     root group - the recorded finding); update 2 = one job in the root group, committed first, so that the batch and its root group
     are running; a worker with free cores is up and scheduling passes (pool, or job-private creation + scheduling) run."""
@@ -178,7 +254,7 @@ def run(ctx):
 
     p = Patterns()
     r = HistoryRunner(ctx, [p, Uncommitted(p)], cfg={'weights': dict(sqlmon.WEIGHTS_RUN), 'discipline': False}, n_ops=ctx.pick(10, 20), setup=scripted)
-    for i, rng in ctx.cases(ctx.pick(24, 120), 'scripted'):
+    for i, rng in ctx.cases(ctx.pick(36, 150), 'scripted'):
         res = r.run_case(i, rng)
         ops = res.get('ops', [])
         ctx.case(sample={'scripted-prefix+ops': ops[:30]}, key=('scripted', i, tuple(ops)), nontrivial=True)
